@@ -370,6 +370,9 @@ func (ex *Exec) intrinsic(fn *ssa.Function, args []Val, caller *frame) (Val, boo
 	if r, ok := ex.intrinsic2(name, fn, args, caller); ok {
 		return r, true
 	}
+	if r, ok := ex.nativeFallback(name, args); ok {
+		return r, true
+	}
 	if p := fnPackage(fn); p != nil && ex.env.interpPkgs[p.Pkg.Path()] && fn.Blocks != nil {
 		return nil, false
 	}
